@@ -739,7 +739,8 @@ def fam_leaf_product():
     return pack(ex, "leaf-product")
 
 
-NUMS = ["0", "1", "7", "2.5", "1.50", "0.1", "3.0", "1e3", "1E-3", "2.5e+2", "1.2345678", "0.30000000000000004", "123456789", "1e22", "1e-7"]
+# 1.0 / 0.0 / 1 / 0 next to true / false: values that compare equal across Python types
+NUMS = ["0", "1", "1.0", "0.0", "7", "2.5", "1.50", "0.1", "3.0", "1e3", "1E-3", "2.5e+2", "1.2345678", "0.30000000000000004", "123456789", "1e22", "1e-7"]
 STRS = ["", "s", "a<b&c", "with space", "it's", ">]]>", "ünï", "1", "true"]
 
 
